@@ -163,8 +163,9 @@ type c03cfg struct {
 	// keep coin flips of the system out of the schedule space are lifted (late
 	// replies of every kind, unsafe cancellation instants, lazy consumers
 	// everywhere, no limit on workers sitting on a record).
-	Racy   bool
-	Client string // "" the standard client on H1; "fullrt", "dual": c03_clients.go
+	Racy        bool
+	LateRecords bool // a cancelled GET_VALUE request to an honest holder of the record is always answered late, never lets the cancellation win
+	Client      string // "" the standard client on H1; "fullrt", "dual": c03_clients.go
 	Kinds  []int  // operation kinds to draw from (nil: the eight routing operations)
 
 	N, K, Alpha, Beta int
@@ -430,13 +431,16 @@ func runC03(s *sim.Sim, c c03cfg) {
 	if c.Quorum {
 		// as above: a follow-up phase with several peers, and records on most
 		// peers, so that the quorum is reached at different phases
-		c.K = s.Range("qk", 3, 8)
+		c.K = s.Range("qk", 3, 16)
 		c.Beta = s.Range("qbeta", 1, 3)
 		c.Alpha = s.Range("qalpha", 1, 3)
 		if c.N < c.K+2 {
 			c.N = c.K + 2
 		}
 		c.FaultLevel = s.Draw("qfault-level", 3)
+		// in half of the runs every reply carrying a record that races the
+		// cancellation of its request wins the race
+		c.LateRecords = s.Chance("late-records", 1, 2)
 	}
 	if c.Optimistic {
 		if c.K > 6 {
@@ -1191,7 +1195,9 @@ func (w *c03world) actions() (acts []sim.Action, wake time.Duration) {
 					s.Count("probe_quorum_followup_aborted")
 				}
 			}
-			acts = append(acts, sim.Action{ID: "cancel>" + p.ID, Do: func() { s.ReleaseCancelled(p) }})
+			if r, ok := p.Data.(*simnet.RPC); !ok || !w.cfg.LateRecords || !w.lateOK(p) || !w.carriesRecord(w.honest(r.To), r) {
+				acts = append(acts, sim.Action{ID: "cancel>" + p.ID, Do: func() { s.ReleaseCancelled(p) }})
+			}
 			if w.lateOK(p) {
 				acts = append(acts, sim.Action{ID: "late>" + p.ID, Do: func() {
 					s.Count("probe_late_reply_after_cancel")
@@ -1212,6 +1218,14 @@ func (w *c03world) actions() (acts []sim.Action, wake time.Duration) {
 		acts = append(acts, sim.Action{ID: p.ID, Do: func() { w.deliver(p) }})
 	}
 	return acts, wake
+}
+
+// honest returns the model of p if it answers honestly (at once or slowly), else nil.
+func (w *c03world) honest(p peer.ID) *c03peer {
+	if x := w.peers[p]; x != nil && (x.mode == pmHonest || x.mode == pmSlow) {
+		return x
+	}
+	return nil
 }
 
 // carriesRecord: will the honest reply of x to r hand the system a record?
